@@ -55,3 +55,15 @@ Definition b58_decode (s : list Z) : outcome (list Z) :=
         if (lz <? z)%nat then Panic P_SUB
         else Ok (skipn (lz - z) bin)
   end.
+
+(* pallas-addresses byron.rs decode_base58 (commit 9d404b24): the digits behind the
+   leading '1's are decoded on their own (so the crate never sees a leading '1'
+   and cannot hit its subtraction overflow), the zero bytes are put back in
+   front, and more than 132 bytes in total is InvalidBase58Length. *)
+Definition pallas_decode_base58 (s : list Z) : outcome (list Z) :=
+  let zeros := count_leading 49 s in
+  match b58_decode (skipn zeros s) with
+  | Ok ds => if (132 <? zeros + length ds)%nat then Err E_B58 else Ok (repeat 0 zeros ++ ds)
+  | Err e => Err e
+  | Panic p => Panic p
+  end.
